@@ -5,6 +5,7 @@ use std::io::{self, BufRead, Write};
 mod util;
 mod words;
 mod fsm;
+mod link;
 
 fn main() {
     let args: Vec<String> = std::env::args().collect();
@@ -18,6 +19,7 @@ fn main() {
     let stdout = io::stdout();
     let mut out = io::BufWriter::with_capacity(1 << 20, stdout.lock());
     let stream = args[1].as_str();
+    link::init_global_cfg();
     for line in stdin.lock().lines() {
         let line = line.expect("read stdin");
         let line = line.trim_end();
@@ -27,6 +29,8 @@ fn main() {
         let res = match stream {
             "words" => words::run_case(line),
             "fsm" => fsm::run_case(line),
+            "link" => link::run_case(line),
+            "dispatch" => link::run_dispatch_case(line),
             _ => {
                 eprintln!("unknown stream {stream}");
                 std::process::exit(2);
